@@ -71,7 +71,24 @@ func ParseFloat(b []byte) (float64, int) {
 			expExp = e
 			i += expLen
 		} else {
-			i = startExp
+			// an exponent that does not fit an int64 is an exponent all the same
+			j, negExp := i, false
+			if j < len(b) && (b[j] == '+' || b[j] == '-') {
+				negExp = b[j] == '-'
+				j++
+			}
+			k := j
+			for k < len(b) && '0' <= b[k] && b[k] <= '9' {
+				k++
+			}
+			if j < k {
+				expExp, i = 1<<41, k
+				if negExp {
+					expExp = -1 << 41
+				}
+			} else {
+				i = startExp
+			}
 		}
 	}
 	if expExp < -1<<40 {
